@@ -35,6 +35,10 @@ pub struct FamOpts {
     /// default value in its place, and a method takes the struct by reference: both revisions then have one
     /// 8-byte integer at offset 0, but they are different fields
     pub ref_twin: bool,
+    /// scripted: def 0 is `struct { f0: u8, f1: u32 }` (three padding bytes after f0); revision 1 adds a u8 field
+    /// with a default value right after f0, i.e. inside the older layout's padding: size, alignment and the
+    /// offsets of the old fields stay the same; a method takes the struct by reference
+    pub pad_twin: bool,
     pub tag: &'static str,
 }
 
@@ -452,6 +456,18 @@ pub fn gen_family(rng: &mut Rng, idx: usize, o: &FamOpts) -> Family {
             class: "roundtrip".into(),
         });
     }
+    if o.pad_twin {
+        let fld = |n: &str, p: Prim| DField { name: n.into(), ty: DTy::Prim(p), added: 0, removed_at: None, default: DefaultKind::Trait, default_dv: None };
+        g.defs[0] = DataDef { name: format!("S{}x0", idx), kind: DKind::Struct(vec![fld("f0", Prim::U8), fld("f1", Prim::U32)]), repr_u8: true };
+        methods.push(Method {
+            name: g.mname("roundtrip"),
+            mut_self: true,
+            is_async: false,
+            args: G::args_named(vec![ArgKind::Ref(DTy::Def(0))]),
+            ret: RetKind::Val(DTy::Def(0)),
+            class: "roundtrip".into(),
+        });
+    }
     if o.wide {
         methods.push(g.m_wide(33));
         methods.push(g.m_wide(63));
@@ -502,6 +518,12 @@ pub fn gen_family(rng: &mut Rng, idx: usize, o: &FamOpts) -> Family {
                 fields.insert(0, DField { name: "g0v1".into(), ty: DTy::Prim(Prim::U64), added: 1, removed_at: None, default: DefaultKind::Val("38".into()), default_dv: Some(DV::N(38)) });
             }
             edits.push("field_replaced_by_other_field_of_same_layout".to_string());
+        }
+        if o.pad_twin && k == 1 {
+            if let DKind::Struct(fields) = &mut g.defs[0].kind {
+                fields.insert(1, DField { name: "g0v1".into(), ty: DTy::Prim(Prim::U8), added: 1, removed_at: None, default: DefaultKind::Val("77".into()), default_dv: Some(DV::N(77)) });
+            }
+            edits.push("field_added_inside_padding".to_string());
         }
         for e in 0..nedits {
             let want = if k == 1 && e == 0 { 0 } else { g.rng.weighted(&[4, 3, 3, 3]) };
@@ -607,7 +629,7 @@ pub fn gen_batch(seed: u64, scale: usize) -> Batch {
         fams.push(gen_family(&mut r, idx, &o));
         idx += 1;
     };
-    let base = FamOpts { n_revs: 1, async_trait: false, futures: false, wide: false, breaking: vec![], send_sync: false, send_only: false, ref_twin: false, tag: "compat" };
+    let base = FamOpts { n_revs: 1, async_trait: false, futures: false, wide: false, breaking: vec![], send_sync: false, send_only: false, ref_twin: false, pad_twin: false, tag: "compat" };
     // fixed part
     push(&mut fixed, FamOpts { wide: true, tag: "wide", ..base.clone() }, &mut fams);
     push(&mut fixed, FamOpts { n_revs: 2, async_trait: true, send_sync: true, tag: "async_trait", ..base.clone() }, &mut fams);
@@ -615,6 +637,7 @@ pub fn gen_batch(seed: u64, scale: usize) -> Batch {
     push(&mut fixed, FamOpts { n_revs: 3, ..base.clone() }, &mut fams);
     push(&mut fixed, FamOpts { n_revs: 2, send_only: true, tag: "send_only", ..base.clone() }, &mut fams);
     push(&mut fixed, FamOpts { n_revs: 2, ref_twin: true, tag: "ref_twin", ..base.clone() }, &mut fams);
+    push(&mut fixed, FamOpts { n_revs: 2, pad_twin: true, tag: "pad_twin", ..base.clone() }, &mut fams);
     push(&mut fixed, FamOpts { n_revs: 4, send_sync: true, ..base.clone() }, &mut fams);
     push(&mut fixed, FamOpts { n_revs: 2, breaking: all_breaks.to_vec(), tag: "breaking", ..base.clone() }, &mut fams);
     push(&mut fixed, FamOpts { n_revs: 2, async_trait: true, send_sync: true, breaking: vec![BreakKind::ArgTypeChanged], tag: "breaking", ..base.clone() }, &mut fams);
